@@ -331,8 +331,22 @@ pub fn suites() -> Vec<Suite> {
         run,
         direct: Some(direct),
         must_hit: &["r:created", "r:creation-refused", "r:duplicate-refused", "r:identical-refused", "r:invalid-asset-refused", "col:set-colliding-by-concatenation-attempted", "n:3-9-created", "n:10+-created", "reg:re-registration"],
+    }, Suite {
+        // the pairs of the factory-only worlds above are never funded, traded on or migrated while funded: the
+        // same agreement - factory record == the pair's description of itself, member for member - is also
+        // judged inside trading histories after every successful owner operation (shared with C17)
+        name: "live_pairs",
+        about: "trading histories with owner administration (re-registration, configuration, pair and factory migration) interleaved; after every successful owner operation the factory's record of EVERY pair equals that pair's own Pair answer member for member (assets, LP token, decimals, requirements, commission)",
+        head_len: crate::hist::HEAD_LEN,
+        op_len: crate::hist::OP_LEN,
+        max_ops: 24,
+        quick_cases: 5_000,
+        thorough_cases: 100_000,
+        run: crate::props::c17::run_live,
+        direct: Some(crate::sys::direct_with::<crate::props::c17::C17LiveOracle>),
+        must_hit: &["live:owner-operation-judged"],
     }]
 }
 
-pub const RULE: &str = "case = factory world (3-8 native denoms drawn from a 17-name pool with heavy prefix sharing (three names with upper-case letters), in 3/4 of the worlds containing the four splits of one concatenation 'abc|defg' = 'abcd|efg' = 'ab|cdefg' = 'abcde|fg'; 1/6 of the denoms unregistered; 0-3 cw20 tokens; a user address, the factory, a non-existent address and a contract whose TokenInfo answer has no `decimals` member posing as tokens; live tokens are sometimes named by the upper-case spelling of their address) + history of <= 30 CreatePair calls (fresh sets, duplicates in either order, identical assets, invalid assets, non-owner sender; interleaved re-registrations of a registered denom's decimals and migrations of registered pairs by the owner; commission absent / in [0,1] / 1 / above 1; whitelist and minimum settings; valid and invalid LP token metadata); after every successful creation every unordered pair of valid assets, and at the end also invalid ones, is looked up in both orders: created sets must resolve to their own pair with a record equal to the pair's self-description and to the creation arguments and true decimals, never-created sets must resolve to nothing, distinct sets never share a pair; refused creations must leave the chain byte-identical; non-trivial = >= 3 successful creations including two sets that share a denom prefix; distinct = hash of the tape";
+pub const RULE: &str = "case = factory world (3-8 native denoms drawn from a 17-name pool with heavy prefix sharing (three names with upper-case letters), in 3/4 of the worlds containing the four splits of one concatenation 'abc|defg' = 'abcd|efg' = 'ab|cdefg' = 'abcde|fg'; 1/6 of the denoms unregistered; 0-3 cw20 tokens; a user address, the factory, a non-existent address and a contract whose TokenInfo answer has no `decimals` member posing as tokens; live tokens are sometimes named by the upper-case spelling of their address) + history of <= 30 CreatePair calls (fresh sets, duplicates in either order, identical assets, invalid assets, non-owner sender; interleaved re-registrations of a registered denom's decimals and migrations of registered pairs by the owner; commission absent / in [0,1] / 1 / above 1; whitelist and minimum settings; valid and invalid LP token metadata); after every successful creation every unordered pair of valid assets, and at the end also invalid ones, is looked up in both orders: created sets must resolve to their own pair with a record equal to the pair's self-description and to the creation arguments and true decimals, never-created sets must resolve to nothing, distinct sets never share a pair; refused creations must leave the chain byte-identical; non-trivial = >= 3 successful creations including two sets that share a denom prefix; distinct = hash of the tape Suite live_pairs (shared with C17): trading histories with owner administration interleaved; after every successful owner operation the factory's record of every pair equals that pair's own Pair answer member for member";
 pub const ASSUMPTIONS: &[&str] = &["cw-multi-test chain model (MockApi canonical addresses are fixed-length)", "'creation succeeds only if ...' is asserted as stated (only-if); that a valid fresh set CAN be created is observed through the aliasing checks, not demanded"];
